@@ -27,7 +27,7 @@ def requests_for(r, bolt11, tier):
     reqs = []
     amts = [None, b"", tu64(1000000), tu64(1000001), tu64(999999), b"\x00" + tu64(1000000), bytes(8), bytes(9), b"\xff" * 8, b"\xff" * 9, bytes([1] * 3)]
     if tier != "thorough":
-        amts = [None, tu64(1000000), tu64(1000001), bytes(9), b"\x00" + tu64(1000000)]
+        amts = [None, b"", bytes(1), bytes(8), tu64(1000000), tu64(1000001), bytes(9), b"\x00" + tu64(1000000)]   # incl. a declared amount of zero, in three spellings
     for a in amts:
         for h in (0, 1):
             for fwd, scid in ((5, None), (None, None), (5, "1x2x3")):
